@@ -96,6 +96,10 @@ def strblob_obligations(ctx):
         d = srcdefs(ctx); d.update({"H_STRING_NULL": None, "C16_TAG": str(ord(t))})
         obls.append(Obl("C16.string.%s.null" % t, PID, S, entry="h_string_null", defines=d, includes=inc, mode="bounded",
                         bound="NULL string vs NULL string or string of 0..3 non-NUL bytes", cbmc=UW, timeout=300))
+        d = dict(d); d["H_NULL_CMP_NONZERO"] = None
+        obls.append(Obl("C16.string.%s.null_cmp_nonzero" % t, PID, S, entry="h_string_null", defines=d, includes=inc, mode="bounded",
+                        bound="NULL string vs string of 0..3 non-NUL bytes; pointer checks off (the code orders the two pointers)",
+                        cbmc=UW + ["--no-pointer-check"], timeout=300))
     for case, txt in (("samelen", "of equal length"), ("difflen", "of different length")):
         d = srcdefs(ctx); d.update({"H_BLOB": None, "C16_BLOB_" + case.upper(): None})
         obls.append(Obl("C16.blob.%s" % case, PID, S, entry="h_blob", defines=d, includes=inc, mode="bounded",
